@@ -122,16 +122,35 @@ def generate(tier, rng):
                      'seed': seed, 'src': 'fd', 'fd': impl})
   for c in edge:
     yield c
-  # global JAX configuration: the keys are drawn by JAX; as split paths they must not depend on the flags
-  settings = [{'JAX_DEFAULT_PRNG_IMPL': 'rbg'}]
+  # exhaustive small grid: clients x cohort (1 .. clients, full participation included) x consecutive
+  # rounds 0 .. R with a second / third call after every one, then a re-seat to round 0 and to the last round
+  gmax, R = (5, 6) if tier == 'quick' else (7, 12)
+  for nc in range(1, gmax + 1):
+    for n in range(1, nc + 1):
+      for seed in ([0] if tier == 'quick' else [0, 1, 2 ** 32 - 1]):
+        yield {'kind': 'get', 'ids': _ids(nc, (nc + n) % 3), 'n': n, 'seed': seed, 'start': 0,
+               'ops': [['S']] * R + [['R', 0], ['S'], ['R', R - 1], ['S'], ['S']], 'fd': ['mem', 'subset', 'sqlite'][(nc + n) % 3],
+               'ins': nc * n % 2}
+  # single-client and full-participation streams (source exactly one epoch per round), second call included
+  for nc in (1, 2, 3, 4):
+    yield {'kind': 'stream', 'ids': _ids(nc, nc % 3), 'n': nc, 'start': nc % 3, 'k': 3, 'B': nc, 'seed': nc - 1,
+           'src': 'fd', 'fd': ['mem', 'subset', 'sqlite'][nc % 3]}
+  # global JAX configuration: the keys are drawn by JAX; as split paths they must not depend on the flags;
+  # another PYTHONHASHSEED in another interpreter process: ids AND key data must be the same
+  settings = [{'JAX_DEFAULT_PRNG_IMPL': 'rbg'}, {'PYTHONHASHSEED': '4242'}]
   if tier != 'quick':
     settings += [{'JAX_THREEFRY_PARTITIONABLE': '0'}, {'JAX_THREEFRY_PARTITIONABLE': '1'}, {'JAX_ENABLE_X64': '1'},
-                 {'JAX_DISABLE_JIT': '1'}, {'JAX_DEFAULT_PRNG_IMPL': 'unsafe_rbg'}]
+                 {'JAX_DISABLE_JIT': '1'}, {'JAX_DEFAULT_PRNG_IMPL': 'unsafe_rbg'}, {'PYTHONHASHSEED': 'random'},
+                 {'PYTHONHASHSEED': '1'}]
   for j, env in enumerate(settings):
     yield {'kind': 'flags', 'env': env, 'cases': [
         {'kind': 'get', 'ids': _ids(4, j % 3), 'n': 2, 'seed': 0, 'start': 0, 'ops': [['S'], ['S'], ['R', 0], ['S']], 'fd': 'mem'},
         {'kind': 'get', 'ids': _ids(5, (j + 1) % 3), 'n': 5, 'seed': rng.randrange(2 ** 32), 'start': 3,
-         'ops': [['S'], ['R', 1000], ['S'], ['R', 3], ['S']], 'fd': 'subset', 'form': 3}]}
+         'ops': [['S'], ['R', 1000], ['S'], ['R', 3], ['S']], 'fd': 'subset', 'form': 3},
+        {'kind': 'get', 'ids': [[98], [98, 0], [98, 0, 0], [97], [97, 0], [99, 0]], 'n': 3, 'seed': 1, 'start': 0,
+         'ops': [['S'], ['S'], ['S']], 'fd': 'mem', 'idtype': 'str', 'ins': 5},
+        {'kind': 'stream', 'ids': _ids(5, j % 3), 'n': 3, 'start': 2, 'k': 3, 'B': 5, 'seed': 0, 'src': 'fd', 'fd': 'sqlite',
+         'ins': 3}]}
   for i in range(nstream):
     nc = rng.choice([1, 2, 3, 5, 7])
     yield {'kind': 'stream', 'ids': _ids(nc, i % 3), 'n': rng.randrange(1, nc + 2), 'start': rng.choice([0, 1, 2, 3, 7]),
@@ -442,9 +461,11 @@ def oracle(case, obs):
     v = []
     for c, so, ho in zip(case['cases'], obs['subs'], obs['here']):
       v += [(k, f'under {case["env"]}: {m}') for k, m in oracle(c, so)]
-      strip = lambda outs: [[cl[:2] for cl in o] if isinstance(o, list) else o for o in outs]
-      if strip(so['outs']) != strip(ho['outs']):
-        v.append(('flags-change-cohort', f'client ids / datasets depend on the JAX flags {case["env"]}'))
+      only_hash = set(case['env']) == {'PYTHONHASHSEED'}
+      strip = lambda outs: [[cl if only_hash else cl[:2] for cl in o] if isinstance(o, list) else o for o in outs]
+      if strip(so['outs']) != strip(ho['outs']) or so.get('stream') != ho.get('stream'):
+        v.append(('process-dependent' if only_hash else 'flags-change-cohort',
+                  f'client ids / datasets{" / key data" if only_hash else ""} differ in another interpreter process started with {case["env"]}'))
       if so['key_paths'] != ho['key_paths']:
         v.append(('flags-change-key-paths', f'the split paths of the keys depend on the JAX flags {case["env"]}'))
     return v
